@@ -11,7 +11,7 @@ From J5V.lib Require Civil Decimal.
 From J5V.proofs Require CodecDecDecimal CodecDecTimeFast.
 From Coq Require Import Permutation.
 From J5V.model Require CodecDecCommute.
-From J5V.proofs Require CodecDecMsgSorted CodecDecReorder CodecDecLenient CodecDecOneofReorder.
+From J5V.proofs Require CodecDecMsgSorted CodecDecReorder CodecDecLenient CodecDecOneofReorder CodecDecDenote CodecDecFull.
 Import ListNotations.
 Local Open Scope N_scope.
 
@@ -646,23 +646,11 @@ Example C03_example_enum_date :
   date_from_string [50;48;50;52;45;49;51;45;52;53] = None.
 Proof. vm_compute. repeat split; reflexivity. Qed.
 
-(* ------------------------------------------------------------------ the full statement, and where it stands *)
-(* The property's three sentences over the model, at document level (bytes in, message or error out):
-   exactness   every non-null member of an accepted document, at every depth, is decoded by its own
-               property's decoder and the field it wrote survives to the final message
-               (C03_document_members_stored + C03_nested_members_stored / C03_object_member_own for the
-               levels below; scalars: C03_document_scalars_stored with the per-kind value theorems);
-   rejection   a fault of any listed class at any position makes the document an error
-               (C03_fault_at_any_position_rejected);
-   leniency    documents that differ only by documented spellings of leaves, member order, whitespace
-               and explicit nulls decode to the same message.
-   Exactness and rejection are theorems above (exactness under the schema condition props_separate).
-   Leniency: documents of the same shape whose leaves are respelled in any combination decode to the
-   same result (C03_respelled_documents_same_result), the leaf facts being the scalar theorems
-   (integers, floats, decimals quoted or bare; the four base64 forms; enum prefix); explicit null
-   members are skipped (C03_null_member_skipped, member level).  NOT proved: timestamps at different
-   offsets denote the same instant (time.Parse is uninterpreted), member reordering, insignificant
-   whitespace, and null-padding lifted to whole documents: direct oracle and correspondence only. *)
+(* ------------------------------------------------------------------ the parts at document level (descent) *)
+(* The two Definitions below are the earlier, weaker document-level forms over the DESCENT of decodeRoot
+   (CodecDec.decode_bytes: decodeObject / decodeOneof on the root, before the end-of-input check); they
+   are kept because proofs/CodecEnc* (C01) and the reordering theorems are stated on the descent.  The
+   full statement over the whole call JSONToProto is C03_full_statement at the end of this file. *)
 Definition C03_exactness_statement : Prop :=
   forall orc e root props bs ms rest me m',
     lookup e root = Some (SObject props) -> props_separate e props ->
@@ -696,3 +684,109 @@ Proof.
   destruct H1 as [<- | [<- | []]]; destruct H2 as [<- | [<- | []]]; cbn in Hne; try discriminate;
     cbn; (split; [discriminate | intros []]).
 Qed.
+
+(* ================================================================== THE FULL STATEMENT *)
+(* What a document denotes, without the decoder (proofs/CodecDecDenote.v):
+     denotes orc e ty j x        the JSON value j denotes the proto value x at a field of type ty
+                                 (scalar: the conversion of the one token; enum: the option named, with or
+                                 without prefix; object / oneof: VMsg of what the member list denotes; array /
+                                 map: element by element, in order; any: type name + compact text of the value);
+     denotes_msg orc e props ms m  (1) every non-null member (key, v) of ms has a property p and, at the proto
+                                 path of p, m holds exactly stored_as p x for the x that v denotes (stored_as:
+                                 an implicit-presence zero / empty list / empty map is an absent field), and
+                                 (2) every populated field of m is owned by a non-null member (nothing else).
+   No prior message state, "seen" list, fuel or depth occurs in either relation. *)
+Theorem C03_object_body_is_denoted : forall orc e,
+  CodecDecFull.env_sep e ->
+  forall f d props ms m', props_separate e props ->
+    tr_object orc e f d props ms [] [] = Ok m' -> CodecDecDenote.denotes_msg orc e props ms m'.
+Proof. exact CodecDecDenote.object_body_denoted. Qed.
+Print Assumptions C03_object_body_is_denoted.
+
+(* a member's own decode, from any message in which its field is absent, stores what its value denotes:
+   the prior state that C03_object_member_own / C03_array_member_own quantify existentially (sub0, base)
+   is empty *)
+Theorem C03_member_stores_denotation : forall orc e, CodecDecFull.env_sep e ->
+  forall n f d p v m m1, (jsize v <= n)%nat -> p_path p <> [] -> v <> JNull ->
+    tr_present orc e f d p v m = Ok m1 -> get_path (p_path p) m = None ->
+    exists x, CodecDecDenote.denotes orc e (p_ty p) v x /\ get_path (p_path p) m1 = CodecDecDenote.stored_as p x.
+Proof. exact CodecDecDenote.P_all. Qed.
+Print Assumptions C03_member_stores_denotation.
+
+Theorem C03_separation_of_environment_decidable : forall e, env_separate e = true -> CodecDecFull.env_sep e.
+Proof. exact CodecDecFull.env_separate_sound. Qed.
+Print Assumptions C03_separation_of_environment_decidable.
+
+(* the whole call: descent, then nothing but white space may follow (fix 9f742f6) *)
+Theorem C03_document_is_descent_then_end : forall orc e root bs j rest me,
+  lex bs = (tokens_of j ++ rest, me) ->
+  decode_document orc e root bs =
+  obind (tr_decode orc e (S (jsize j)) root j) (fun m =>
+    obind (end_of_input rest (lex_at_eof bs)) (fun _ => Ok m)).
+Proof. exact decode_document_tree. Qed.
+Print Assumptions C03_document_is_descent_then_end.
+
+Theorem C03_trailing_data_rejected : forall orc e root bs j t rest me,
+  lex bs = (tokens_of j ++ t :: rest, me) -> is_ok (decode_document orc e root bs) = false.
+Proof. exact decode_document_tree_trailing. Qed.
+Print Assumptions C03_trailing_data_rejected.
+
+Theorem C03_accepted_document_is_accepted_descent : forall orc e root bs m,
+  decode_document orc e root bs = Ok m <->
+  decode_bytes orc e root bs = Ok m /\ doc_end_ok orc e root bs = true.
+Proof. exact decode_document_ok. Qed.
+Print Assumptions C03_accepted_document_is_accepted_descent.
+
+(* The property's statement over the model of JSONToProto, for every environment passing the two
+   computable schema checks that each run evaluates on the real schemas (CEnv cases):
+   (1) success => the text is ONE document, every non-null member is stored with exactly the value it
+       denotes and nothing else is stored (doc_denotes = denotes_msg for an object root, denotes at
+       FOneof for a oneof root);
+   (2) every documented alternate spelling (doc_variant: respelled leaves, permuted members, added
+       explicit nulls, in any combination at any depth) of an accepted document is accepted with the
+       same message;
+   (3) a document with a fault of a listed class at any position (doc_fault), or with anything after the
+       top-level value, is an error. *)
+Definition C03_full_statement : Prop :=
+  forall orc e root, env_separate e = true -> CodecDecCommute.env_commute e = true ->
+  (forall bs ms rest me m',
+     lex bs = (tokens_of (JObj ms) ++ rest, me) -> decode_document orc e root bs = Ok m' ->
+     rest = [] /\ lex_at_eof bs = true /\ CodecDecFull.doc_denotes orc e root ms m') /\
+  (forall bs bs' ms ms' me me' m',
+     lex bs = (tokens_of (JObj ms), me) -> lex_at_eof bs = true ->
+     lex bs' = (tokens_of (JObj ms'), me') -> lex_at_eof bs' = true ->
+     CodecDecFull.doc_variant orc e root ms ms' ->
+     decode_document orc e root bs = Ok m' -> decode_document orc e root bs' = Ok m') /\
+  (forall bs ms rest me,
+     lex bs = (tokens_of (JObj ms) ++ rest, me) ->
+     CodecDecFull.doc_fault orc e root ms \/ rest <> [] \/ lex_at_eof bs = false ->
+     is_err (decode_document orc e root bs) = true).
+Theorem C03_full : C03_full_statement.
+Proof. exact CodecDecFull.C03_full. Qed.
+Print Assumptions C03_full.
+
+(* non-vacuity: ok_doc on pos_env satisfies both schema checks, is accepted as a whole document, and
+   the same text followed by a second document, a stray bracket or a letter is an error *)
+Example C03_example_full :
+  env_separate pos_env = true /\ CodecDecCommute.env_commute pos_env = true /\
+  lex ok_doc = (tokens_of ok_tree ++ [], false) /\ lex_at_eof ok_doc = true /\
+  decode_document no_oracles pos_env [78] ok_doc =
+    Ok [(2, VList [VStr [97]; VStr [98]]); (5, VMsg [(2, VList [VStr [120]])])] /\
+  is_err (decode_document no_oracles pos_env [78] (ok_doc ++ [123; 125])) = true /\
+  is_err (decode_document no_oracles pos_env [78] (ok_doc ++ [93])) = true /\
+  is_err (decode_document no_oracles pos_env [78] (ok_doc ++ [32; 120])) = true /\
+  decode_document no_oracles pos_env [78] ([32; 10] ++ ok_doc ++ [10; 32; 9; 13]) =
+    decode_document no_oracles pos_env [78] ok_doc.
+Proof. vm_compute. repeat split; reflexivity. Qed.
+
+(* LIMITS of C03_full (also in pylib/propcfg/C03.py "partial"):
+   - the leaf reading inside [denotes] is the conversion of the one token (scalar_from_go); what that
+     conversion computes is characterised independently per kind by the scalar theorems above (integers,
+     dates, timestamps, decimals, bool / string / key, base64 canonical forms); float64 / float32 values
+     rest on the float oracle (C03_float_* below / above);
+   - members whose property is an exposed oneof (empty proto path) are covered by clause (2) of
+     denotes_msg ("nothing else", via owns) but not by the per-member clause (1);
+   - the hypothesis [lex bs = (tokens_of (JObj ms) ++ rest, me)]: that every accepted text has such a
+     reading is not proved (malformed texts end the token list early and the descent fails on them);
+   - (2) is one direction (accepted original => accepted variant); the converse holds for member
+     reordering and null padding of the root (C03_reordered_document_same_message, iff). *)
